@@ -199,7 +199,7 @@ def render_class(prog, ci):
     return lines
 
 
-def render_module(prog, mi):
+def render_module(prog, mi, as_blocks=False):
     pkg = prog.get("pkg", PKG)
     lay = prog.get("layout", {}).get(str(mi), {})
     imports = ["import dds", "import vlog", "from xt import util as xu", "from collections import OrderedDict",
@@ -242,16 +242,27 @@ def render_module(prog, mi):
         rest = [rest[i % len(rest)] for i in _perm_indices(len(rest), perm)] if rest else rest
         blocks = vs + rest
     extra = lay.get("extra", [])  # E4: unrelated definitions: [position, kind, n]
-    out = list(imports) + ["", ""]
-    for bi, (_k, _i, lines) in enumerate(blocks):
+    seq = []
+    for bi, (k, i, lines) in enumerate(blocks):
         for (pos, kind, n) in extra:
             if pos == bi:
-                out += _unrelated(kind, n) + ["", ""]
-        out += lines + ["", ""]
+                seq.append(("u", n, _unrelated(kind, n)))
+        seq.append((k, i, lines))
     for (pos, kind, n) in extra:
         if pos >= len(blocks):
-            out += _unrelated(kind, n) + ["", ""]
+            seq.append(("u", n, _unrelated(kind, n)))
+    if as_blocks:
+        return imports, seq
+    out = list(imports) + ["", ""]
+    for (_k, _i, lines) in seq:
+        out += lines + ["", ""]
     return "\n".join(out)
+
+
+def module_cells(prog, mi=0):
+    """notebook rendering of a one-module program: the imports cell, then one cell per top-level definition"""
+    imports, seq = render_module(prog, mi, as_blocks=True)
+    return [("imports", 0, "\n".join(imports))] + [(k, i, "\n".join(lines)) for (k, i, lines) in seq]
 
 
 def _perm_indices(n, seed):
